@@ -29,14 +29,14 @@ func (p *propC13) Assumptions() []string {
 	}
 }
 func (p *propC13) ProbeNames() []string {
-	return []string{"redefinition switching byte order", "redefinition switching message", "redefinition changing field list", "16 types live at once", "compressed record after redefinition", "undefined type hit", "undefined compressed type hit"}
+	return []string{"redefinition switching byte order", "redefinition switching message", "redefinition changing field list", "16 types live at once", "compressed record after redefinition", "undefined type hit", "undefined compressed type hit", "same layout re-emitted with the other byte order", "identical definition re-emitted"}
 }
 
 func (p *propC13) Prepare(seed uint64, tier string) int {
 	p.seed, p.tier = seed, tier
-	p.count = 120000
+	p.count = 300000
 	if isThorough(tier) {
-		p.count = 4000000
+		p.count = 3000000
 	}
 	return p.count
 }
@@ -49,6 +49,11 @@ func (p *propC13) Gen(idx int) *Scenario {
 	}
 	rs := genStream(r, StreamOpts{FT: ft, NData: r.Range(10, 100), Arch: 2, Unknown: true, Dev: r.Chance(1, 4), Compressed: true, Unhosted: true, MaxFields: 5, Accum: false})
 	sc := &Scenario{V: 1, Property: "C13", Engine: "rx", Seed: p.seed, Index: idx, Params: map[string]string{}}
+	if r.Chance(1, 3) {
+		// re-emit a definition in use: once unchanged, or with only the byte order
+		// flipped (same message, same field triples), then send a record under it
+		reemitDefinition(r, rs)
+	}
 	if r.Chance(1, 4) {
 		// insert a data record for a never-defined local type after position pos
 		pos := r.Range(2, len(rs.Ops))
@@ -127,6 +132,13 @@ func (p *propC13) Check(sc *Scenario, st *Stats) []Violation {
 			l := op.Def.Local & 15
 			if old := defs[l]; old != nil {
 				kind := ""
+				if old.Global == op.Def.Global && fmt.Sprint(old.Fields) == fmt.Sprint(op.Def.Fields) && fmt.Sprint(old.Dev) == fmt.Sprint(op.Def.Dev) {
+					if old.Arch != op.Def.Arch {
+						st.Probe("same layout re-emitted with the other byte order")
+					} else {
+						st.Probe("identical definition re-emitted")
+					}
+				}
 				switch {
 				case old.Global != op.Def.Global:
 					kind = "message"
@@ -191,4 +203,89 @@ func (p *propC13) Check(sc *Scenario, st *Stats) []Violation {
 		vs = append(vs, Violation{Property: "C13", Class: cls, Detail: d.String()})
 	}
 	return vs
+}
+
+// reemitDefinition picks a data record, and right before it inserts a copy of
+// the definition in force for its local type - identical, or identical except
+// for the byte order (the payload of the following records of that type is
+// re-encoded for the new order so that the stream stays meaningful).
+func reemitDefinition(r *Rng, rs *RecStream) {
+	var defs [16]*DefOp
+	var cands []int
+	for i := range rs.Ops {
+		if d := rs.Ops[i].Def; d != nil {
+			defs[d.Local&15] = d
+		} else if rs.Ops[i].Data != nil && i > 2 {
+			cands = append(cands, i)
+		}
+	}
+	if len(cands) == 0 {
+		return
+	}
+	pos := cands[r.Intn(len(cands))]
+	// definition in force at pos
+	defs = [16]*DefOp{}
+	for i := 0; i < pos; i++ {
+		if d := rs.Ops[i].Def; d != nil {
+			defs[d.Local&15] = d
+		}
+	}
+	do := rs.Ops[pos].Data
+	l := do.Local & 15
+	if do.Comp {
+		l = do.Local & 3
+	}
+	old := defs[l]
+	if old == nil || old.Global == 0 {
+		return
+	}
+	nd := *old
+	nd.Fields = append([][3]int{}, old.Fields...)
+	flip := r.Chance(2, 3)
+	if flip {
+		if nd.Arch == "le" {
+			nd.Arch = "be"
+		} else {
+			nd.Arch = "le"
+		}
+	}
+	ops := append([]Op{}, rs.Ops[:pos]...)
+	ops = append(ops, Op{Def: &nd})
+	ops = append(ops, rs.Ops[pos:]...)
+	if flip {
+		// swap the bytes of every multi-byte element in the records that follow under this definition
+		for i := pos + 1; i < len(ops); i++ {
+			if d := ops[i].Def; d != nil && d.Local&15 == l {
+				break
+			}
+			dd := ops[i].Data
+			if dd == nil {
+				continue
+			}
+			dl := dd.Local & 15
+			if dd.Comp {
+				dl = dd.Local & 3
+			}
+			if dl != l {
+				continue
+			}
+			b := unhex(dd.Bytes)
+			off := 0
+			for _, fd := range nd.Fields {
+				bi := baseOf(byte(fd[2]))
+				if bi != nil && bi.Size > 1 && !bi.String {
+					for e := off; e+bi.Size <= off+fd[1] && e+bi.Size <= len(b); e += bi.Size {
+						for x, y := e, e+bi.Size-1; x < y; x, y = x+1, y-1 {
+							b[x], b[y] = b[y], b[x]
+						}
+					}
+				}
+				off += fd[1]
+			}
+			nd2 := *dd
+			nd2.Bytes = hexs(b)
+			ops[i].Data = &nd2
+		}
+	}
+	rs.Ops = ops
 }
